@@ -1,6 +1,32 @@
 import BigDec.Model.Exp
-/-! # C13 (theorems under construction) -/
+import BigDec.Proofs.ExpPos
+/-! # C13 — exp(x) is positive and accurate to its last digit for every argument
+
+PARTIAL BY NATURE: the accuracy bound (one unit in the 100th digit of the real `e^x`) is a
+statement about a transcendental function; it is judged per generated argument by an interval
+enclosure of `e^x` computed with exact rational arithmetic (`Spec.expEnclosure`).  What is proved
+for ALL arguments about the model of the repaired routine (series for `|x|`, `e^-x = 1/e^x`):
+the result is strictly positive - the clause the original code violated for large negative
+arguments (exp(-1000) was negative) - and `exp(0)` is exactly 1.  `est` is the f64 digit estimate;
+`EstOK est` (10^est(b) ≤ 2^b) is the scalar condition checked on the real code for every bit length
+by C18's `digitsbits` cases. -/
 namespace BigDec
+
 theorem C13_exp_zero (cfg : Config) (est : Nat → Nat) (s : Int) : (Dec.mk 0 s).exp cfg est = some ⟨1, 0⟩ := by
   simp [Dec.exp, Dec.isZero, Dec.one]
+
+/-- **strict positivity for every argument**, large negative ones included: whatever the routine
+    returns (for any fuel) has a positive unscaled integer, hence a positive value -/
+theorem C13_positive (cfg : Config) {est : Nat → Nat} (hest : EstOK est) (hp : 1 ≤ cfg.precision)
+    (x : Dec) (fuel : Nat) (r : Dec) (h : x.exp cfg est fuel = some r) : 0 < r.int ∧ 0 < r.value :=
+  ⟨exp_pos cfg hest hp x fuel r h, (value_pos_iff r).mpr (exp_pos cfg hest hp x fuel r h)⟩
+
+/-- the reciprocal path: a negative argument is computed as `1 / e^|x|` and trimmed -/
+theorem C13_negative_is_reciprocal (cfg : Config) (est : Nat → Nat) (x : Dec) (fuel : Nat) (hneg : x.int < 0) :
+    x.exp cfg est fuel = (expUntrimmed cfg est x.abs fuel).map fun pos =>
+      (implDivision 1 pos.int (-pos.scale) cfg.precision).withPrec est cfg.precision := by
+  unfold Dec.exp
+  have hz : x.isZero = false := by simp [Dec.isZero]; omega
+  simp [hz, hneg]
+
 end BigDec
